@@ -19,6 +19,9 @@ pub struct Batch {
     pub script: Vec<u8>,
     /// fail the first coordination RPC (session, kind, from, to)
     pub fail: Option<(usize, RpcKind, usize, usize)>,
+    /// cancel every party of this session at this step
+    #[serde(default)]
+    pub cancel: Option<(usize, usize)>,
 }
 
 #[derive(Clone, Debug, Default, Serialize)]
@@ -32,6 +35,8 @@ pub struct SessionObs {
     /// logical time of the leader's last activity (RPC completion, MPC message, output)
     pub leader_last: u64,
     pub failed_rpc_fired: bool,
+    /// results of the cancel calls (per party), None = never returned
+    pub cancels: Vec<Option<Result<(), String>>>,
 }
 
 #[derive(Clone, Debug, Default, Serialize)]
@@ -99,8 +104,25 @@ pub async fn explore_batch(b: &Batch, baseline: usize) -> BatchObs {
     let mut failed = false;
     let mut fired = vec![false; b.sessions.len()];
     let mut step = 0usize;
+    let mut cancelled = false;
     loop {
         quiesce_all(&sess, baseline).await;
+        if let Some((si, k)) = b.cancel {
+            if !cancelled && step >= k && si < sess.len() {
+                cancelled = true;
+                for p in 0..n {
+                    let h = sess[si].handles[p].clone();
+                    let c2 = sess[si].ctl.clone();
+                    c2.event(LogEv::Action(format!("cancel {p}")));
+                    let t = tokio::spawn(async move {
+                        let r = h.cancel().await.map_err(|e| format!("{e:?}"));
+                        c2.event(LogEv::CancelDone { party: p, result: r });
+                    });
+                    sess[si].tasks.push(t);
+                }
+                quiesce_all(&sess, baseline).await;
+            }
+        }
         for p in 0..n {
             obs.min_permits_seen[p] = obs.min_permits_seen[p].min(sems[p].available_permits());
         }
@@ -157,11 +179,12 @@ pub async fn explore_batch(b: &Batch, baseline: usize) -> BatchObs {
     for (si, s) in sess.into_iter().enumerate() {
         let leader = b.sessions[si].leader;
         let g = s.ctl.inner.lock().unwrap();
-        let mut so = SessionObs { schedule: vec![None; n], failed_rpc_fired: fired[si], ..Default::default() };
+        let mut so = SessionObs { schedule: vec![None; n], failed_rpc_fired: fired[si], cancels: vec![None; n], ..Default::default() };
         for (i, e) in g.log.iter().enumerate() {
             let t = g.log_time.get(i).copied().unwrap_or(0);
             match e {
                 LogEv::ScheduleDone { party, result } => so.schedule[*party] = Some(result.clone()),
+                LogEv::CancelDone { party, result } => so.cancels[*party] = Some(result.clone()),
                 LogEv::Output { party, result } => {
                     so.outputs.push((*party, result.clone(), t));
                     if *party == leader {
